@@ -161,7 +161,7 @@ def explained_by_or(g, s, s2, ignore):
         return False
 
 
-def metamorphic(ctx, name, e, e_ign, s, replay_obj):
+def metamorphic(ctx, name, e, e_ign, s, replay_obj, classify=None):
     """insert whitespace / comments at every boundary of an accepted input; returns number of checks"""
     base = parse_view(e, s)
     if base[0] != "ok":
@@ -191,6 +191,8 @@ def metamorphic(ctx, name, e, e_ign, s, replay_obj):
                     key = "comment:%s|%r|%d|%r" % (name, s, p, cm)
                     if explained_by_or(replay_obj.get("grammar"), s, s2, True):
                         key = "whitespace:or-longest-counts-skipped-whitespace"
+                    if classify is not None:
+                        key = classify(s, p, key)
                     ctx.violation(key,
                                   "%s.ignore(c_style_comment).ignore(python_style_comment): inserting %r at %d of %r changes the result: %r -> %r" % (name, cm, p, s, base_i[1:], got[1:] if got[0] == "ok" else got),
                                   dict(replay_obj, input=s, pos=p, ins=cm, kind="comment"))
@@ -363,6 +365,30 @@ def correspond(ctx):
         e_ign = e.copy().ignore(pp.c_style_comment).ignore(pp.python_style_comment)
         for s in inputs:
             nchecks += guarded(lambda: metamorphic(ctx, name, e, e_ign, s, {"example": name}), 20.0) or 0
+    # ignore() registered on a Forward BEFORE it receives its body (`f.ignore(c); f <<= ...`) must work like ignore() afterwards
+    def arith(pre):
+        num = pp.Word("12")
+        expr = pp.Forward()
+        if pre:
+            expr.ignore(pp.c_style_comment).ignore(pp.python_style_comment)
+        atom = num | pp.Group(pp.Suppress("(") + expr + pp.Suppress(")"))
+        expr <<= atom + pp.ZeroOrMore(pp.one_of("+ -") + atom)
+        return expr
+
+    def listf(pre):
+        item = pp.Forward()
+        if pre:
+            item.ignore(pp.c_style_comment).ignore(pp.python_style_comment)
+        item <<= pp.Word("ab") | pp.Group(pp.Suppress("[") + pp.Opt(pp.DelimitedList(item)) + pp.Suppress("]"))
+        return item
+    # (F-09e: such an ignore() stays on the Forward and never reaches the body it receives later - nor is it consulted where an
+    #  enclosing sequence enters the Forward without pre-parsing; what must still hold is that the ignorable is skipped where
+    #  parse_string itself enters the Forward: at the front of the text)
+    def before_define_key(s, p, key):
+        return key if p == 0 else "comment:ignore-before-define:not-propagated-into-the-body"
+    for name, mk, inputs in (("ignore-before-define:arith", arith, ["(1+2)-(1)", "1+(2-(1))"]), ("ignore-before-define:list", listf, ["[a,[b,ab],[]]", "ab"])):
+        for s_ in inputs:
+            nchecks += guarded(lambda: metamorphic(ctx, name, mk(False), mk(True), s_, {"example": name}, classify=before_define_key), 20.0) or 0
     combine_converse(ctx)
     shared_child_scenarios(ctx)
     ignore_returns_element(ctx)
@@ -405,6 +431,9 @@ def replay(ctx, obj):
     if r.get("kind") in ("ws", "comment"):
         if "grammar" in r:
             e = build.Builder(ENV).build_all(_tuplify(r["grammar"]))
+        elif str(r.get("example", "")).startswith("ignore-before-define"):
+            print("re-run `./check C09`: the example %r is rebuilt by correspond()" % r["example"])
+            return False
         else:
             e = [x for x in example_grammars() if x[0] == r["example"]][0][1]
         if r["kind"] == "comment":
